@@ -84,24 +84,28 @@ Theorem neg_offset_slice_refuted :
   let h := [OMallocH 0 16 1 7 false; OSlice 1 0 8 (-1); OSlice 2 1 (-4) 2; OCopyToH 2 (-1) 0] in
   ops_ok h /\ run pinned init h = [OK; OK; OK; OKB [131; 162]] /\ s_run sinit h = [OK; OK; ERR; ERR].
 Proof. split; [| split]; [solve_ops_ok | vm_compute; reflexivity ..]. Qed.
+Print Assumptions neg_offset_slice_refuted.
 
 (* C02-1 (DESIGN 8 #3): a.copyTo(u) / a.copyFrom(u) with u uninitialized dereference null *)
 Theorem uninit_copy_crash_refuted :
   run pinned init [OMallocH 0 16 1 7 false; OCopyToM 0 1 (-1) 0 0] = [OK; CRASH CNull] /\
   run pinned init [OMallocH 0 16 1 7 false; OCopyFromM 0 1 (-1) 0 0] = [OK; CRASH CNull].
 Proof. split; vm_compute; reflexivity. Qed.
+Print Assumptions uninit_copy_crash_refuted.
 
 (* C02-3 (DESIGN 8 #5): copies on an uninitialized `this` return silently *)
 Theorem uninit_this_silent_refuted :
   run pinned init [OCopyToH 0 (-1) 0; OCopyFromH 0 2 1 9; OCopyToM 0 1 (-1) 0 0] = [OKB []; OK; OK] /\
   s_run sinit [OCopyToH 0 (-1) 0; OCopyFromH 0 2 1 9; OCopyToM 0 1 (-1) 0 0] = [ERR; ERR; ERR].
 Proof. split; vm_compute; reflexivity. Qed.
+Print Assumptions uninit_this_silent_refuted.
 
 (* C02-4: slice / clone of an uninitialized handle return an uninitialized handle silently *)
 Theorem uninit_slice_clone_silent_refuted :
   run pinned init [OSlice 1 0 0 (-1); OClone 2 0; OSize 1] = [OK; OK; OKN [0; 0; 0]] /\
   s_run sinit [OSlice 1 0 0 (-1); OClone 2 0; OSize 1] = [ERR; ERR; OKN [0; 0; 0]].
 Proof. split; vm_compute; reflexivity. Qed.
+Print Assumptions uninit_slice_clone_silent_refuted.
 
 (* C02-5: a source with fewer bytes than one element of its dtype (size() == 0) is skipped silently:
    a malloc from a 3-byte view typed float has unspecified contents (so has its clone) *)
@@ -110,11 +114,13 @@ Theorem short_source_refuted :
   ops_ok h /\ run pinned init h = [OK; OK; OK; OK; OKB [undef; undef; undef]] /\
   s_run sinit h = [OK; OK; OK; OK; OKB [7; 38; 69]].
 Proof. split; [| split]; [solve_ops_ok | vm_compute; reflexivity ..]. Qed.
+Print Assumptions short_source_refuted.
 
 (* C02-6: a device-to-device copy between overlapping views of one buffer is a memcpy with overlap *)
 Theorem overlap_memcpy_refuted :
   run pinned init [OMallocH 0 16 1 7 false; OCopyFromM 0 0 8 2 0] = [OK; CRASH COverlap].
 Proof. vm_compute; reflexivity. Qed.
+Print Assumptions overlap_memcpy_refuted.
 
 (* ---- outside the guard (arguments >= 2^40): the wrapped case, on the repaired code as well.
    Recorded as known finding huge_arg (docs/notes/C02.known). *)
@@ -124,15 +130,18 @@ Theorem wrapped_count_accepted :
   let h := [OMallocH 0 16 1 7 false; OCast 1 0 4; OCopyToH 1 4611686018427387905 0] in
   run fixed init h = [OK; OK; OKB [7; 38; 69; 100]] /\ s_run sinit h = [OK; OK; ERR].
 Proof. split; vm_compute; reflexivity. Qed.
+Print Assumptions wrapped_count_accepted.
 
 (* the signed product dtypeSize * offset and the signed sum bytes + offset overflow (undefined behaviour) *)
 Theorem wrapped_overflow_ub :
   run fixed init [OMallocH 0 16 1 7 false; OCast 1 0 4; OCopyToH 1 1 4611686018427387905] = [OK; OK; CRASH COvf] /\
   run fixed init [OMallocH 0 16 1 7 false; OCopyToH 0 9223372036854775807 1] = [OK; CRASH COvf].
 Proof. split; vm_compute; reflexivity. Qed.
+Print Assumptions wrapped_overflow_ub.
 
 (* bytes = -1 passes `bytes >= -1`: with a 3-byte dtype, count (2^64-1)/3 and offset 1 are accepted and the
    backend is asked to copy 2^64-1 bytes *)
 Theorem wrapped_count_out_of_bounds :
   run fixed init [OMallocH 0 16 1 7 false; OCast 1 0 3; OCopyToH 1 6148914691236517205 1] = [OK; OK; CRASH COob].
 Proof. vm_compute; reflexivity. Qed.
+Print Assumptions wrapped_count_out_of_bounds.
